@@ -131,6 +131,34 @@ def run_case(ctx, gd, doms, out, cond, rng, wrapper=0):
                      gev.key([x for x in gev.from_event(res.event) if x[2] is not None])})
 
 
+def planted_cross_world(rng, gd):
+    """Plant x -> y, x -> w -> v, w <-> y into the graph (4 nodes in topological order) and ask for [y_x, v_x']: the
+    unvalued ancestor w_x' shares a c-component with y_x, so the ctf-factor holds x at two values (inconsistent, the
+    procedure must not return an expression for it as if it were consistent).  -> (graph, event) or None"""
+    from ..refgraph import RG
+
+    if len(gd["nodes"]) < 4:
+        return None
+    order = [str(v) for v in RG.make(gd["nodes"], [tuple(e) for e in gd["di"]], []).topological_order()]
+    idx = sorted(rng.sample(range(len(order)), 4))
+    x, a, b, c = (order[i] for i in idx)
+    # x first; of the other three, w must precede v
+    w, v, y = rng.choice([(a, b, c), (a, c, b), (b, c, a)])
+    di = [list(e) for e in gd["di"]]
+    bi = [list(e) for e in gd["bi"]]
+    for e in ([x, y], [x, w], [w, v]):
+        if e not in di:
+            di.append(e)
+    if [w, y] not in bi and [y, w] not in bi:
+        bi.append([w, y])
+    g2 = {"nodes": list(gd["nodes"]), "di": di, "bi": bi, "hostile": "planted-cross-world"}
+    if not gg._acyclic(g2["nodes"], g2["di"]):
+        return None
+    s = rng.random() < 0.5
+    ev = [[y, [[x, s]], rng.random() < 0.5], [v, [[x, not s]], rng.random() < 0.5]]
+    return g2, ev
+
+
 def run_shard(ctx):
     gg.ALLOW_PREFIXED = False  # a name T_x is a selection node for the transport algorithms
     mon_ctf.install_ctf()
@@ -143,6 +171,14 @@ def run_shard(ctx):
         n = rng.choice([2, 3, 3, 4, 4] + ([5] if ctx.tier == "thorough" else []))
         gd = gg.random_admg(rng, n, p_bi=rng.choice([0.1, 0.2, 0.35]))
         doms = random_domains(rng, gd)
+        if i % 11 == 5:
+            pc = planted_cross_world(rng, gd)
+            if pc is not None:
+                gd, out = pc
+                doms = random_domains(rng, gd)
+                classes["planted_cross_world"] = classes.get("planted_cross_world", 0) + 1
+                run_case(ctx, gd, doms, out, [], rng, wrapper=(0, 1)[i % 2])
+                continue
         if i % 3 == 0:
             sp = c08.split_event(rng, gd)
             if sp is None:
